@@ -226,7 +226,20 @@ fn gen_proj(rng: &mut Rng) -> (M4, String) {
         let p = rng.range_i64(1, q - 1);
         angle_from_quarter_tan(Q::frac(p, q))
     };
-    match rng.below(11) {
+    match rng.below(13) {
+        11 | 12 => loop {
+            // a perspective-shaped matrix [a 0 b 0; 0 c d 0; . . . .; 0 0 g 0] whose depth row is free:
+            // the oblique near clipping plane of reflections and portals (added after seeded change C10_P:
+            // a closed-form "inverse of a perspective projection" must honour every entry the shape leaves free)
+            let z = Q::ZERO;
+            let (b, d) = if rng.bool() { (small_q(rng, 4, 3), small_q(rng, 4, 3)) } else { (z, z) };
+            let g = if rng.bool() { Q::frac(-1, 1) } else { Q::frac(1, 1) };
+            let row2 = if rng.bool() { [small_q(rng, 4, 3), small_q(rng, 4, 3), small_q_nonzero(rng, 4, 3), small_q_nonzero(rng, 4, 3)] } else { [z, z, small_q(rng, 4, 3), small_q_nonzero(rng, 4, 3)] };
+            let m = [[small_q_nonzero(rng, 4, 3), z, b, z], [z, small_q_nonzero(rng, 4, 3), d, z], row2, [z, z, g, z]];
+            if !det(m).is_zero() {
+                return (m, format!("perspective-shaped with depth row {:?}: {:?}", row2, m));
+            }
+        },
         8 | 9 => loop {
             // sparse perturbation of the identity: 1..6 random entries (any row, the bottom row
             // included) replaced by small rationals; rows / columns that stay unit vectors are the point
